@@ -121,6 +121,42 @@ func main() {
 	r.Sample(HistCase{"history", reqs[0].Name, seqs[len(seqs)/2]})
 
 	r.Set("t_histories_s", time.Since(t0).Seconds())
+	// ---- R: free-running race pass (separate processes; runs alongside the schedule search) ----
+	var raceDone chan struct{}
+	if bin := os.Getenv("VERIF_RACE_BIN"); bin != "" && part("race") {
+		raceDone = make(chan struct{})
+		go func() {
+			defer close(raceDone)
+			for _, procs := range []string{"1", "4", "16"} {
+				cmd := exec.Command(bin, "racepass")
+				cmd.Env = append(os.Environ(), "GOMAXPROCS="+procs, "GORACE=halt_on_error=0 exitcode=66")
+				var out bytes.Buffer
+				cmd.Stdout, cmd.Stderr = &out, &out
+				err := cmd.Run()
+				txt := out.String()
+				if strings.Contains(txt, "WARNING: DATA RACE") {
+					i := strings.Index(txt, "WARNING: DATA RACE")
+					rep := txt[i:]
+					if len(rep) > 3000 {
+						rep = rep[:3000]
+					}
+					r.Fail("data-race", rep, map[string]any{"kind": "racepass", "gomaxprocs": procs})
+				} else if strings.Contains(txt, "RACEPASS-MISMATCH") {
+					i := strings.Index(txt, "RACEPASS-MISMATCH")
+					r.Fail("interference-free-running", firstLines(txt[i:], 6), map[string]any{"kind": "racepass", "gomaxprocs": procs})
+				} else if err != nil {
+					fmt.Fprintf(os.Stderr, "internal error: race pass failed: %v\n%s\n", err, txt)
+					os.Exit(2)
+				}
+				r.Outcome("racepass-gomaxprocs-"+procs, 1)
+			}
+			r.Set("race_pass", "free-running, -race, GOMAXPROCS in {1,4,16}: complement of the cooperative scheduler (not model checking)")
+		}()
+	} else {
+		r.Set("race_pass", "not run (no race binary)")
+	}
+
+	r.Set("t_total_s", time.Since(t0).Seconds())
 	// ---- E3 schedules ----
 	type plan struct {
 		name string
@@ -136,59 +172,69 @@ func main() {
 	}
 	if !r.Thorough() {
 		// one pair at bound 2 on every change as well
-		plans = append(plans, plan{"json-vs-text-consumer", 2})
+		plans = append(plans, plan{"static-route-json-vs-text", 2})
 	}
 	bounds := map[string]int{}
+	// small searches (bound 1) run four at a time with four workers each, deep ones alone on all cores
+	type done struct {
+		p   plan
+		m   *sched.Result
+		err error
+	}
+	var small, deep []plan
 	for _, p := range plans {
-		if r.OutOfTime() || !part("sched") {
-			break
+		if p.pb <= 1 {
+			small = append(small, p)
+		} else {
+			deep = append(deep, p)
 		}
-		m, err := sched.RunSharded(p.name, p.pb, 0)
-		if err != nil {
-			fmt.Fprintln(os.Stderr, "internal error:", err)
+	}
+	results := make(chan done, len(plans))
+	if part("sched") {
+		sem := make(chan struct{}, 4)
+		var wg sync.WaitGroup
+		for _, p := range small {
+			p := p
+			wg.Add(1)
+			go func() {
+				defer wg.Done()
+				sem <- struct{}{}
+				defer func() { <-sem }()
+				if r.OutOfTime() {
+					return
+				}
+				m, err := sched.RunShardedN(p.name, p.pb, 0, 4)
+				results <- done{p, m, err}
+			}()
+		}
+		wg.Wait()
+		for _, p := range deep {
+			if r.OutOfTime() {
+				break
+			}
+			m, err := sched.RunSharded(p.name, p.pb, 0)
+			results <- done{p, m, err}
+		}
+	}
+	close(results)
+	for d := range results {
+		if d.err != nil {
+			fmt.Fprintln(os.Stderr, "internal error:", d.err)
 			os.Exit(2)
 		}
-		sched.Merge(r, m)
-		r.Nontrivial(m.Stats.Executions)
-		bounds[fmt.Sprintf("%s@preemptions<=%d", p.name, p.pb)] = int(m.Stats.Executions)
-		if m.Stats.Stopped {
+		sched.Merge(r, d.m)
+		r.Nontrivial(d.m.Stats.Executions)
+		bounds[fmt.Sprintf("%s@preemptions<=%d", d.p.name, d.p.pb)] = int(d.m.Stats.Executions)
+		if d.m.Stats.Stopped {
 			r.OutOfTime()
 		}
 	}
 	r.Set("schedules_per_scenario", bounds)
 
 	r.Set("t_schedules_s", time.Since(t0).Seconds())
-	// ---- R: free-running race pass ----
-	if bin := os.Getenv("VERIF_RACE_BIN"); bin != "" && part("race") {
-		for _, procs := range []string{"1", "4", "16"} {
-			cmd := exec.Command(bin, "racepass")
-			cmd.Env = append(os.Environ(), "GOMAXPROCS="+procs, "GORACE=halt_on_error=0 exitcode=66")
-			var out bytes.Buffer
-			cmd.Stdout, cmd.Stderr = &out, &out
-			err := cmd.Run()
-			txt := out.String()
-			if strings.Contains(txt, "WARNING: DATA RACE") {
-				i := strings.Index(txt, "WARNING: DATA RACE")
-				rep := txt[i:]
-				if len(rep) > 3000 {
-					rep = rep[:3000]
-				}
-				r.Fail("data-race", rep, map[string]any{"kind": "racepass", "gomaxprocs": procs})
-			} else if strings.Contains(txt, "RACEPASS-MISMATCH") {
-				i := strings.Index(txt, "RACEPASS-MISMATCH")
-				r.Fail("interference-free-running", firstLines(txt[i:], 6), map[string]any{"kind": "racepass", "gomaxprocs": procs})
-			} else if err != nil {
-				fmt.Fprintf(os.Stderr, "internal error: race pass failed: %v\n%s\n", err, txt)
-				os.Exit(2)
-			}
-			r.Outcome("racepass-gomaxprocs-"+procs, 1)
-		}
-		r.Set("race_pass", "free-running, -race, GOMAXPROCS in {1,4,16}: complement of the cooperative scheduler (not model checking)")
-	} else {
-		r.Set("race_pass", "not run (no race binary)")
+	if raceDone != nil {
+		<-raceDone
 	}
-
-	r.Set("t_total_s", time.Since(t0).Seconds())
 	r.Assume("interleavings at statement granularity of the instrumented files (props/c09/overlay.conf); code of dependencies and the standard library runs atomically between points",
 		"map iteration order inside instrumented files is fixed (sorted) during schedule exploration",
 		"reference = the same request served alone by a fresh handler")
